@@ -13,6 +13,7 @@ database is re-verified after every event.
 from __future__ import annotations
 
 import json
+import struct
 import os
 import traceback
 from dataclasses import dataclass
@@ -121,10 +122,16 @@ class W:
         self.m = m
         self.sim = simnet.World(("c17", m.seed))
         self.ov: dict[str, IdentityCommunity] = {}
-        idx = fixtures.rotate(m.seed, len(NODES))
+        curve = m.cfg.get("curve", "curve25519")
+        idx = fixtures.rotate(m.seed, len(NODES), curve)
         shared = IdentityManager(":memory:") if m.cfg.get("shared_manager") else None
         for name, ki in zip(NODES, idx):
-            node = self.sim.add_node(name, ki)
+            if curve != "curve25519" and name == "D":
+                # the fixture file holds two keys per legacy curve: attester and subject B share the curve (uniform
+                # signature length in everything they exchange), the bystander D gets a key of another legacy curve
+                node = self.sim.add_node(name, m.seed % 2, curve="medium" if curve != "medium" else "low")
+            else:
+                node = self.sim.add_node(name, ki, curve=curve)
             # shared_manager: B and D are two pseudonyms of one process (CommunicationManager gives all its pseudonyms
             # the same IdentityManager); each still has its own key, overlay and token chain
             manager = shared if shared is not None and name in ("B", "D") else IdentityManager(":memory:")
@@ -279,6 +286,10 @@ class Model(core.BfsModel):
             al += [("cattest",)]
         if "dis" in g:
             al += [("dis", src, defect, att) for src in ("own", "other") for defect in DIS_DEFECTS for att in DIS_ATTS]
+            # a genuine new credential together with a second, validly signed metadata (over the next token) whose body
+            # is the JSON list [k] (the attester's checks raise on it; k varies the order the two are looked at); the
+            # datagram is delivered twice
+            al += [("dis", "own", f"poisoned-sibling:{k}", "none") for k in range(4)]
         self.alphabet = al
 
     def params(self) -> dict:
@@ -481,6 +492,17 @@ class Model(core.BfsModel):
             metadata = metadata[:-1] + bytes([metadata[-1] ^ 1])
             for h, *_ in refm.parse_metadata(metadata, w.slen):
                 w.labels[h] = ("md-altered", "D", idx)
+        elif defect.startswith("poisoned-sibling:"):
+            tree = o.pseudonym_manager.tree
+            tok2 = tree.add_by_hash(bytes([0xF2]) * 32, tree.elements[pointer])
+            p2 = tok2.get_hash()
+            w.chain["D"].created(p2)
+            w.labels[p2] = ("tok", "D", idx + 1, "poisoned")
+            text = p2 + b"[%d]" % int(defect.split(":")[1])
+            raw = text + d_key.signature(text)
+            w.labels[refm.obj_hash(raw)] = ("md-poisoned", "D", idx + 1, defect)
+            metadata += struct.pack(">I", len(raw)) + raw
+            tokens += tok2.get_plaintext_signed()
         else:
             raise ValueError(defect)
         valid = md_hash + d_key.signature(md_hash)
@@ -493,8 +515,10 @@ class Model(core.BfsModel):
             attestations, authorities = md_hash + bytes([2]) * w.slen + valid, authority * 2
         else:
             raise ValueError(atts)
-        w.inject("D" if src == "own" else "B", "T",
-                 w.pack("D", DisclosePayload(metadata, tokens, attestations, authorities)))
+        datagram = w.pack("D", DisclosePayload(metadata, tokens, attestations, authorities))
+        w.inject("D" if src == "own" else "B", "T", datagram)
+        if defect.startswith("poisoned-sibling:"):
+            w.inject("D", "T", datagram)
 
     @staticmethod
     def _record_new_credential(w: W, s: str, dg, msg: Msg) -> None:  # noqa: ANN001
@@ -735,6 +759,10 @@ def configs(ctx: core.Ctx) -> list[tuple[Model, int]]:
     # chain; T asks both for tokens
     shared = _cfg(hashes=1, names=1, reg_keys=["B"], reg_md=[0], req_subjects=["B"], req_extra=[0], time=[],
                   groups=["adv", "advd", "rm", "rmd"], shared_manager=True)
+    # every identity (attester included) on a legacy curve: ECDSA signatures are randomised, so nothing may identify an
+    # attestation, token or metadata by signing it again
+    legacy = _cfg(hashes=1, names=1, reg_keys=["B"], reg_md=[0], req_subjects=["B"], req_extra=[0], time=[299],
+                  groups=["replay", "remeta"], max_replay=2, curve="low")
     full = _cfg()
     if ctx.thorough:
         return [
@@ -744,6 +772,8 @@ def configs(ctx: core.Ctx) -> list[tuple[Model, int]]:
             (Model("fields-2x2", _cfg(hashes=1, reg_keys=["B"], req_subjects=["B"], groups=["replay"]), s), 5),
             (Model("tokens", tokens, s), 5),
             (Model("shared", shared, s), 5),
+            (Model("legacy-low", legacy, s), 5),
+            (Model("legacy-high", {**legacy, "curve": "high"}, s), 4),
             (Model("forged", {**forged, "time": [301], "groups": ["dis", "replay"]}, s), 3),
             (Model("channel", {**channel, "time": [299, 301], "max_replay": 3}, s), 6),
         ]
@@ -752,6 +782,7 @@ def configs(ctx: core.Ctx) -> list[tuple[Model, int]]:
         (Model("fields", fields, s), 4),
         (Model("tokens", tokens, s), 4),
         (Model("shared", shared, s), 4),
+        (Model("legacy-low", legacy, s), 4),
         (Model("forged", forged, s), 3),
         (Model("channel", channel, s), 5),
         (Model("full", full, s), 3),
